@@ -42,7 +42,7 @@ def oracle_commits(ctx, sc, o):
     cfg = dict(driver.DEFAULT_CFG)
     cfg.update(sc.get('cfg', {}))
     for p in o.passes:
-        if p['code'] == 50:
+        if p['code'] in (2, 50):
             ctx.violation('crash:' + type(p['exc']).__name__, f'{p["pass_"]} ended the reduction with {type(p["exc"]).__name__}: {p["exc"]} (a failing candidate must only be skipped)',
                           {'scenario': sc, 'kind': 'shim'})
         if p['bug'] > max(sc.get('bug0', 0), cfg['maxcrash'] + 1):
@@ -51,10 +51,10 @@ def oracle_commits(ctx, sc, o):
             ctx.violation('extra-dir-cap', f'{p["extra"]} cvise_extra_* directories (cap {cfg["maxextra"] + 1})', {'scenario': sc, 'kind': 'shim'})
 
 
-def oracle_nonblocking(ctx, sc, o):
+def oracle_nonblocking(ctx, sc, o, maxto=None):
     if any(p['code'] != 0 or p['bug'] != 0 for p in o.passes):
         return
-    ref = seq_reference(sc, o.order)
+    ref = seq_reference(sc, o.order, maxto)
     if ref is None:
         return
     final = list(logical(o, o.passes[-1]['disk']))
@@ -72,6 +72,11 @@ def real_case(ctx, sc, tag):
         t = tuple(c.decode('latin-1') for c in d)
         if t not in ok0:
             ctx.violation('commit-without-exit0', f'real pool: committed {t} although no test run on it exited 0', {'scenario': sc, 'kind': 'real'})
+    for p in o.passes:
+        if p['code'] in (2, 50):
+            ctx.violation('crash:' + type(p['exc']).__name__, f'real pool ({tag}): {p["pass_"]} ended the reduction with {type(p["exc"]).__name__}: {str(p["exc"])[:200]}', {'scenario': sc, 'kind': 'real'})
+    if tag == 'noisy' and [c.decode('latin-1') for c in o.passes[-1]['disk']] != ['a'] and not any(p['code'] for p in o.passes):
+        ctx.violation('noisy-test-blocks', f'real pool: noisy but correct test, final {o.passes[-1]["disk"]} instead of [a]', {'scenario': sc, 'kind': 'real'})
     if o.wall > 60:
         ctx.violation('wedged', f'real-pool run took {o.wall:.0f}s', {'scenario': sc, 'kind': 'real'})
     if any(r['verdict'] != 0 for r in o.log) and o.accepted:
@@ -80,6 +85,10 @@ def real_case(ctx, sc, tag):
 
 
 REAL_SCENARIOS = [
+    ('noisy', {'files': [('f0.c', 'abcx')], 'noise': 9000,
+               'rules': [([('nothas', 0, 'a')], 3), ([('has', 0, 'a')], 0)],
+               'passes': [{'key': 1, 'ops': [('delch', 'a'), ('delch', 'b'), ('delch', 'c'), ('delch', 'x')], 'aos': 1}],
+               'cfg': {'N': 2}}),
     ('mixed', {'files': [('f0.c', 'abcxk')],
                'rules': [([('nothas', 0, 'a')], 3), ([('nothas', 0, 'b')], -9), ([('nothas', 0, 'c')], 'timeout'), ([('has', 0, 'a')], 0)],
                'passes': [{'key': 1, 'ops': [('delch', 'a'), ('delch', 'b'), ('delch', 'c'), ('delch', 'x'), ('delch', 'k')], 'aos': 1}],
@@ -99,11 +108,14 @@ def explore(ctx):
     n = 120 if ctx.quick() else 1200
     corpus = [e['scenario'] for e in json.load(open(os.path.join(os.environ.get('VERIF_ROOT', '/verif'), 'corpus', 'driver.json')))]
     for it in range(n + len(corpus)):
-        prof = 'faults' if it % 2 else 'nonblocking'
+        prof = 'faults' if it % 2 else ('nonblocking' if it % 4 else 'timeouts')
         if it < len(corpus):
             sc, prof = corpus[it], 'corpus'
         else:
             sc = scengen.gen_scenario(rnd, 'faults') if prof == 'faults' else nonblocking(rnd)
+            if prof == 'timeouts':    # sequential runs with hanging candidates: several rounds, few timeouts each
+                sc['cfg'].update({'N': 1, 'maxto': rnd.choice([1, 2, 3])})
+                sc['rules'] = [(atoms, out if out == 0 or rnd.random() < 0.5 else 'timeout') for atoms, out in sc['rules']]
         t0 = time.time()
         o = driver.run_scenario(sc, ctx.tmp)
         ctx.evaluations += 1
@@ -115,6 +127,8 @@ def explore(ctx):
         oracle_commits(ctx, sc, o)
         if prof == 'nonblocking':
             oracle_nonblocking(ctx, sc, o)
+        if prof in ('timeouts', 'corpus') and sc['cfg'].get('N') == 1 and 'maxto' in sc['cfg']:
+            oracle_nonblocking(ctx, sc, o, maxto=sc['cfg']['maxto'])
         each.append((driver.coq_scenario(sc, o.perm), o.out, sc))
         faults = sum(1 for (_c, rc, _w, _l) in o.testlog if rc != 0)
         ctx.count(f'{prof}:N={sc["cfg"].get("N", 2)}')
@@ -122,7 +136,7 @@ def explore(ctx):
             ctx.nontriv(repr((sc['files'], sc['passes'], sc['rules'], sc['cfg'], sc['sched'])))
     ctx.sample({'scenario': {k: each[1][2][k] for k in ('files', 'passes', 'rules', 'cfg', 'sched')}, 'impl_output': each[1][1][:40]})
     correspond(ctx, 'c09', each)
-    for tag, sc in (REAL_SCENARIOS if not ctx.quick() else REAL_SCENARIOS[:2]):
+    for tag, sc in (REAL_SCENARIOS if not ctx.quick() else REAL_SCENARIOS[:3]):
         o = real_case(ctx, sc, tag)
         if tag == 'all-timeout':
             # MAX_TIMEOUTS ends the round: at most maxto + N candidates are ever started
